@@ -224,7 +224,7 @@ def ev_sx_to_py(es):
 def stream_seq(ctx, model, dist, stats, samples, mism):
     cls = make_seq_class()
     rng = ctx.sub_rng("seq")
-    n_cases = 1500 if ctx.quick else 40000
+    n_cases = 1000 if ctx.quick else 40000
     reqs, reals, cases = [], [], []
     for i in range(n_cases):
         malformed = rng.random() < 0.12
@@ -572,7 +572,7 @@ def make_patched_class():
 
 def stream_schedules(ctx, model, variant, dist, stats, samples, mism):
     rng = ctx.sub_rng("sched")
-    n_cases = 500 if ctx.quick else 12000
+    n_cases = 250 if ctx.quick else 12000
     hits = {}
     for i in range(n_cases):
         p = gen_params(rng)
@@ -601,7 +601,7 @@ def stream_schedules(ctx, model, variant, dist, stats, samples, mism):
     rng = ctx.sub_rng("patched")
     pm = 0
     pfull = {}
-    n_p = 150 if ctx.quick else 2000
+    n_p = 60 if ctx.quick else 2000
     for i in range(n_p):
         p = gen_params(rng)
         case, problems, obs, info = replay_case(ctx, model, (True, True, True), p, rng=rng, max_len=60, cls=patched)
@@ -635,7 +635,7 @@ def nm_single(ctx, nmodel, dist, stats, samples, mism):
     from cloudsync.notification import Notification, NotificationType, SourceEnum
     NM = make_nm_class()
     rng = ctx.sub_rng("notify")
-    n_cases = 400 if ctx.quick else 8000
+    n_cases = 250 if ctx.quick else 8000
     ntypes = list(NotificationType)
     reqs, reals, cases = [], [], []
     for i in range(n_cases):
